@@ -101,6 +101,22 @@ def time_only_band(k1, b1, k2, b2, tb):
     return min(vals), max(vals)
 
 
+def ref_iou(s1, s2):
+    """Reference IoU of two shapely shapes, computed in coordinates local to the pair (translated to the joint lower-left
+    corner and scaled to the joint bounding box; IoU is invariant under such maps).  GEOS falls back to snap-rounding with a
+    tolerance proportional to the largest ordinate when exact noding fails, so overlaying 0.03 Hz-wide shapes at 5 MHz directly is
+    off by 1e-3 and depends on the operand order (finding F25); in local coordinates that tolerance is 1e-12 of the box."""
+    from shapely import affinity as A
+
+    x0, y0 = min(s1.bounds[0], s2.bounds[0]), min(s1.bounds[1], s2.bounds[1])
+    w, h = max(s1.bounds[2], s2.bounds[2]) - x0, max(s1.bounds[3], s2.bounds[3]) - y0
+    if w > 1e-300 and h > 1e-300 and math.isfinite(w) and math.isfinite(h):
+        s1, s2 = (A.scale(A.translate(s, -x0, -y0), 1 / w, 1 / h, origin=(0, 0)) for s in (s1, s2))
+    inter = s1.intersection(s2).area
+    union = s1.area + s2.area - inter
+    return 0.0 if union == 0 else min(1.0, inter / union)
+
+
 def has_area(kind, coords):
     b = ref_bounds(kind, coords)
     if kind in BUFFERED:
@@ -184,10 +200,7 @@ def check(spec, ctx):
             return buffer_geometry(g, time_buffer=tb, freq_buffer=fb) if k in BUFFERED else g
 
         p1, p2 = prep(g1, k1), prep(g2, k2)
-        s1, s2 = to_shp(p1.type, p1.coordinates), to_shp(p2.type, p2.coordinates)
-        inter = s1.intersection(s2).area
-        union = s1.area + s2.area - inter
-        exp = 0.0 if union == 0 else min(1.0, inter / union)
+        exp = ref_iou(to_shp(p1.type, p1.coordinates), to_shp(p2.type, p2.coordinates))
         if abs(a12 - exp) > 1e-9:
             ctx.fail(f"affinity {a12} for {k1}/{k2} differs from IoU {exp} of the geometries buffered with ({tb},{fb})", spec, a12, exp, kind="iou_of_buffered")
 
@@ -232,10 +245,7 @@ def check(spec, ctx):
             return buffer_geometry(g, time_buffer=tb2, freq_buffer=fb2) if k in BUFFERED else g
 
         p1, p2 = prep2(g1, k1), prep2(g2, k2)
-        s1, s2 = to_shp(p1.type, p1.coordinates), to_shp(p2.type, p2.coordinates)
-        inter = s1.intersection(s2).area
-        union = s1.area + s2.area - inter
-        exp = 0.0 if union == 0 else min(1.0, inter / union)
+        exp = ref_iou(to_shp(p1.type, p1.coordinates), to_shp(p2.type, p2.coordinates))
         if abs(c12 - exp) > 1e-9:
             ctx.fail(f"(second buffers) affinity {c12} differs from IoU {exp} of the buffered geometries", spec, c12, exp, kind="iou_of_buffered")
 
